@@ -635,19 +635,23 @@ package actor
 //@ func NewAgentRef
 //@   ensures agent != nil ==> result.0 != nil && fresh(result.0) && result.0.agent == agent && result.0.ref != nil && result.1 == nil
 //@ pure agentOK(a *AgentRef) bool = a != nil && a.ref != nil && a.agent != nil
+// the table holds no nil and (after removeFuture) no empty inner map
+//@ pure fatwf(s *System) bool = s.futureAgents != nil && forall p string :: p in s.futureAgents ==> s.futureAgents[p] != nil
 //@ func (*System).appendFuture
-//@   requires s.futureAgents != nil && agentOK(agentRef) && !held(s.futureLock)
+//@   requires fatwf(s) && agentOK(agentRef) && !held(s.futureLock)
 //@   modifies s.futureAgents[*], anymapof(s.futureAgents), anyold
 //@   ensures  a2p(agentRef) in s.futureAgents && s.futureAgents[a2p(agentRef)] != nil && f2p(agentRef) in s.futureAgents[a2p(agentRef)] &&
 //@            s.futureAgents[a2p(agentRef)][f2p(agentRef)] == agentRef
+//@   ensures  fatwf(s)
 //@ pure a2p(a *AgentRef) string = a.agent.path
 //@ pure f2p(a *AgentRef) string = a.ref.path
 // once a future has completed (its closer runs removeFuture) the system keeps no registration for it
 //@ func (*System).removeFuture
-//@   requires s.futureAgents != nil && agentOK(agentRef) && !held(s.futureLock)
+//@   requires fatwf(s) && agentOK(agentRef) && !held(s.futureLock)
 //@   modifies s.futureAgents[*], anymapof(s.futureAgents), anyold
 //@   ensures  !(a2p(agentRef) in s.futureAgents) || !(f2p(agentRef) in s.futureAgents[a2p(agentRef)])
 //@   ensures  forall p string :: p in s.futureAgents ==> len(s.futureAgents[p]) > 0 || p != a2p(agentRef)
+//@   ensures  fatwf(s)
 // the registry's futures are well-formed and nobody is inside their forwarder lock
 //@ pure regfut(s *System) bool = forall k any :: smhas(&s.actorContexts, k) && typeis(smval(&s.actorContexts, k), "*future.Future[vivid.Message]") ==>
 //@     !nilptr(smval(&s.actorContexts, k)) && future.futwf(unboxed(smval(&s.actorContexts, k), "*future.Future[vivid.Message]")) &&
